@@ -544,8 +544,9 @@ class C01:
         for v in self.values(ctx, ctx.scale(900, 20000)):
             for p in (range(6) if ctx.thorough or rng.random() < 0.2 else [rng.randint(0, 5), rng.choice([0, 2])]):
                 su = rng.randint(0, 1)
-                lines.append(f"enc {p} {su} - {V.render(v, sort=False)}")
-                meta.append((p, su, v))
+                vr = V.with_relatives(rng, v) if rng.random() < 0.4 else v     # int8..uint64, float32, pointers, nil
+                lines.append(f"enc {p} {su} - {V.render_raw(vr)}")
+                meta.append((p, su, V.strip_raw(vr)))
         go, lean = run_both(lines)
         load_lines, load_meta = [], []
         for line, (p, su, v), g, l in zip(lines, meta, go, lean):
